@@ -25,6 +25,7 @@ fn main() {
     let code = match cmd {
         "g1" => cmd_g1(&args),
         "g4" => cmd_g4(&args),
+        "g2" => cmd_g2(&args),
         "replay" => cmd_replay(&args),
         "policy" => cmd_simple(&args, "policy"),
         "limits" => cmd_simple(&args, "limits"),
@@ -136,6 +137,131 @@ fn cmd_g1(args: &[String]) -> i32 {
         code = 2;
     }
     let report = acc.report(json!({"engine": "g1", "profile": profile.name, "config": cfg_name, "seed": seed, "violation": violation}));
+    if let Some(out) = out {
+        std::fs::write(&out, serde_json::to_string(&report).unwrap()).expect("write report");
+    } else {
+        println!("{}", serde_json::to_string_pretty(&report).unwrap());
+    }
+    code
+}
+
+/// The reduced alphabet of the small-scope enumerator. Selectors 0/128/255 address the first,
+/// middle and last live handle, i.e. every handle as long as at most three are live.
+fn g2_alphabet() -> Vec<Op> {
+    let sels = [0u8, 128, 255];
+    let mut v = Vec::new();
+    v.push(Op::New(Spec::default()));
+    v.push(Op::New(Spec { fin: vec![FinOp::StashNeighbourSlot(0, 0)], dq: 1 }));
+    for a in sels {
+        v.push(Op::Clone(a));
+        v.push(Op::Drop(a));
+        v.push(Op::MarkAlive(a));
+        v.push(Op::Downgrade(a));
+        v.push(Op::Upgrade(a));
+        v.push(Op::TryUnwrap(a));
+        for s in [0u8, 3] {
+            v.push(Op::ClearSlot { h: a, s });
+            for b in sels {
+                v.push(Op::SetSlot { h: a, s, t: b });
+            }
+        }
+        v.push(Op::StoreWeak { h: a, ws: 0, w: 0 });
+    }
+    v.push(Op::Collect);
+    v.push(Op::WeakDrop(0));
+    v.push(Op::DropLoose(0));
+    v
+}
+
+/// G2: small-scope enumerator. Every sequence `New, a_2, ..., a_d` over the reduced alphabet,
+/// optionally each also with a fault at the first trace exit. Deterministic, seed-independent.
+fn cmd_g2(args: &[String]) -> i32 {
+    let prop = arg(args, "--prop").unwrap_or("C01").to_string();
+    let depth: usize = arg(args, "--depth").and_then(|s| s.parse().ok()).unwrap_or(4);
+    let with_faults: u32 = arg(args, "--faults").and_then(|s| s.parse().ok()).unwrap_or(0);
+    let shard: usize = arg(args, "--g2-shard").and_then(|s| s.parse().ok()).unwrap_or(0);
+    let shards: usize = arg(args, "--g2-shards").and_then(|s| s.parse().ok()).unwrap_or(1);
+    let out = arg(args, "--out").map(|s| s.to_string());
+    let replay_out = arg(args, "--replay-out").map(|s| s.to_string());
+    let cfg_name = arg(args, "--config-name").unwrap_or("?").to_string();
+    let known: Vec<String> = arg(args, "--known").map(|s| load_known(s, &prop)).unwrap_or_default();
+    if let Some(r) = &replay_out {
+        rccv::crash::install(r);
+    }
+    let opts = RunOpts { strict: false, logging: false, known, quiesce_mid: false, timeout_s: 20, persist: replay_out.is_some(), prop: prop.clone(), config: cfg_name.clone() };
+    let alpha = g2_alphabet();
+    let n = alpha.len();
+    let mut acc = Acc::new(&prop);
+    let mut failing: Option<(Case, String)> = None;
+    let mut sequences = 0u64;
+    // odometer over positions 1..depth (position 0 is always the first alphabet entry, New)
+    let free = depth.saturating_sub(1);
+    let total: u64 = (n as u64).pow(free as u32);
+    let mut idx = shard as u64;
+    'outer: while idx < total {
+        let mut ops = vec![alpha[0].clone()];
+        let mut x = idx;
+        for _ in 0..free {
+            ops.push(alpha[(x % n as u64) as usize].clone());
+            x /= n as u64;
+        }
+        idx += shards as u64;
+        sequences += 1;
+        let mut plans: Vec<Vec<Fault>> = vec![Vec::new()];
+        if with_faults > 0 {
+            plans.push(vec![Fault { kind: Kind::TraceEnd, nth: 0 }]);
+            plans.push(vec![Fault { kind: Kind::Trace, nth: 1 }]);
+        }
+        for faults in plans {
+            let c = Case { auto: false, ops: ops.clone(), faults };
+            acc.evaluations += 1;
+            match run_case(&c, &opts) {
+                Outcome::Hang => {
+                    acc.hangs += 1;
+                    acc.hang_case = Some(c.clone());
+                    failing = Some((c, "HANG".into()));
+                    break 'outer;
+                }
+                Outcome::Done(r) => {
+                    if let Some(v) = acc.absorb(&c, &r) {
+                        failing = Some((c, v.sig));
+                        break 'outer;
+                    }
+                }
+            }
+        }
+    }
+    let mut code = 0;
+    let mut violation = serde_json::Value::Null;
+    if let Some((case, sig)) = failing {
+        if sig == "HANG" {
+            code = 2;
+            violation = json!({"hang": true, "case": case});
+        } else {
+            code = 1;
+            acc.frozen = true;
+            let small = shrink_g4(case, &opts, &prop);
+            let res = match run_case(&small, &RunOpts { logging: true, ..opts.clone() }) {
+                Outcome::Done(r) => Some(r),
+                Outcome::Hang => None,
+            };
+            let vio: Vec<_> = res.as_ref().map(|r| r.violations.clone()).unwrap_or_default();
+            let sig2 = vio.iter().find(|v| v.props.iter().any(|p| p == &prop)).map(|v| v.sig.clone()).unwrap_or(sig);
+            let replay = json!({"property": prop, "engine": "g2", "kind": "heap", "configuration": cfg_name, "case": small, "signature": sig2, "violations": vio,
+                "log": res.as_ref().map(|r| r.log.clone()).unwrap_or_default()});
+            if let Some(path) = &replay_out {
+                let _ = std::fs::write(path, serde_json::to_string_pretty(&replay).unwrap());
+            }
+            violation = json!({"signature": sig2, "replay": replay_out, "violations": vio});
+        }
+    }
+    if acc.harness_errors > 0 {
+        code = 2;
+    }
+    let complete = code == 0;
+    let mut report = acc.report(json!({"engine": "g2", "config": cfg_name, "seed": 0, "violation": violation}));
+    report["exhaustive"] = json!({"scope": format!("all {} operation sequences New,a2..a{} over a {}-letter alphabet (shard {}/{}){}", sequences, depth, n, shard, shards, if with_faults > 0 { ", each also with a fault at the first trace exit and at the second trace entry" } else { "" }),
+        "complete": complete, "sequences": sequences});
     if let Some(out) = out {
         std::fs::write(&out, serde_json::to_string(&report).unwrap()).expect("write report");
     } else {
